@@ -7,7 +7,9 @@ import (
 	"math"
 	"strings"
 
+	"github.com/tobgu/qframe/function"
 	"github.com/tobgu/qframe/internal/vx"
+	"github.com/tobgu/qframe/types"
 )
 
 // c03cmp returns -1/0/+1 for physical rows p,q of column c (fork free).
@@ -94,6 +96,75 @@ func VX_C03_sort() {
 	// the input frame still shows its rows in the old order
 	for row := 0; row < n; row++ {
 		vx.Check(f.index[row] == ix[row], "input frame untouched")
+	}
+	vx.Reach("end")
+}
+
+// VX_C03_resort: Sort on frames with a history: sorted before, then the key column replaced
+// (Apply / Copy / Eval onto the key's name), or filtered, or sorted again in another direction.
+func VX_C03_resort() {
+	n, P := vx.ParamInt("n"), vx.ParamInt("P")
+	k, y := vxMakeCol("int", P, 0), vxMakeCol("int", P, 0)
+	ix := make([]uint32, n) // a fixed non-identity arrangement
+	for j := range ix {
+		ix[j] = uint32((j + P - 1) % P)
+	}
+	f := vxFrame([]string{"k", "y"}, []vxCol{k, y}, ix)
+	first := []Order{{Column: "k"}}
+	if vx.ParamStr("first") == "k,y" {
+		first = []Order{{Column: "k"}, {Column: "y"}}
+	}
+	s1 := f.Sort(first...)
+	vx.Check(s1.Err == nil, "first Sort: no error")
+	nk := make([]int, P) // the key column's content after the intermediate step, per physical row
+	copy(nk, k.i)
+	g := s1
+	second := []Order{{Column: "k"}}
+	switch vx.ParamStr("via") {
+	case "apply":
+		g = s1.Apply(Instruction{Fn: func(x int) int { return x ^ 5 }, DstCol: "k", SrcCol1: "k"})
+		for p := range nk {
+			nk[p] = k.i[p] ^ 5
+		}
+	case "copy":
+		g = s1.Copy("k", "y")
+		copy(nk, y.i)
+	case "eval":
+		g = s1.Eval("k", Expr("abs", types.ColumnName("k")))
+		for p := range nk {
+			nk[p] = function.AbsI(k.i[p])
+		}
+	case "filter":
+		g = s1.Filter(Filter{Column: "y", Comparator: ">", Arg: vx.Int()})
+	case "reverse":
+		second = []Order{{Column: "k", Reverse: true}}
+	case "same":
+	default:
+		panic("via")
+	}
+	vx.Check(g.Err == nil, "intermediate step: no error")
+	rows := append([]uint32{}, g.index...)
+	r := g.Sort(second...)
+	vx.Check(r.Err == nil, "second Sort: no error")
+	out := r.index
+	vx.Check(len(out) == len(rows), "all rows returned")
+	for _, id := range rows {
+		cnt := 0
+		for j := range out {
+			cnt += vx.B2I(out[j] == id)
+		}
+		vx.Check(cnt == 1, "each row exactly once")
+	}
+	kv := r.MustIntView("k")
+	for j := 0; j < len(out); j++ {
+		vx.Check(kv.ItemAt(j) == nk[out[j]], "key cells are the replaced values")
+	}
+	for j := 0; j+1 < len(out); j++ {
+		a, b := nk[out[j]], nk[out[j+1]]
+		if second[0].Reverse {
+			a, b = b, a
+		}
+		vx.Check(a <= b, "consecutive rows never decrease (on the key as it is now)")
 	}
 	vx.Reach("end")
 }
